@@ -61,27 +61,39 @@ def job_seq_run():
 
 
 # counts are 'at least one' (None): after all rules NO pointer expression may be left (checked below), which is the real drift guard
-RPTR_PD = [('R-ptr getId', r'worker->getId\(\)', 'wid', None),
+RPTR_PD = [('R-ptr getId', r'worker->getId\(\)', 'verif_wid__', None),
            ('R-ptr In.Lock', r'threadsMutexesIn_\[([^\]]+)\]->Lock\(\)', r'Mutex_Lock(&In[\1])', None),
            ('R-ptr In.Unlock', r'threadsMutexesIn_\[([^\]]+)\]->Unlock\(\)', r'Mutex_Unlock(&In[\1])', None),
            ('R-ptr reader.Lock', r'traj_readerMutex_\.Lock\(\)', 'Mutex_Lock(&traj_readerMutex_)', None),
            ('R-ptr reader.Unlock', r'traj_readerMutex_\.Unlock\(\)', 'Mutex_Unlock(&traj_readerMutex_)', None),
-           ('R-ptr NextFrame', r'traj_reader_->NextFrame\(worker->top_\)', 'NextFrame(wid)', None),
-           ('R-ptr Apply', r'worker->map_->Apply\(\)', 'Apply(wid)', None),
-           ('R-ptr Eval2', r'worker->EvalConfiguration\(&worker->top_cg_,\s*&worker->top_\)', 'Eval(wid)', None),
-           ('R-ptr Eval1', r'worker->EvalConfiguration\(&worker->top_\)', 'Eval(wid)', None)]
-RPTR_RUN = [('R-ptr ProcessData', r'app_->ProcessData\(this\)', 'ProcessData(wid)', None),
+           ('R-ptr NextFrame', r'traj_reader_->NextFrame\(worker->top_\)', 'NextFrame(verif_wid__)', None),
+           ('R-ptr Apply', r'worker->map_->Apply\(\)', 'Apply(verif_wid__)', None),
+           ('R-ptr Eval2', r'worker->EvalConfiguration\(&worker->top_cg_,\s*&worker->top_\)', 'Eval(verif_wid__)', None),
+           ('R-ptr Eval1', r'worker->EvalConfiguration\(&worker->top_\)', 'Eval(verif_wid__)', None)]
+RPTR_RUN = [('R-ptr ProcessData', r'app_->ProcessData\(this\)', 'ProcessData(verif_wid__)', None),
             ('R-ptr Sync', r'app_->SynchronizeThreads\(\)', 'SynchronizeThreads()', None),
-            ('R-ptr getId', r'(?<![>\w])getId\(\)', 'wid', None),
+            ('R-ptr getId', r'(?<![>\w])getId\(\)', 'verif_wid__', None),
             ('R-ptr Out.Lock', r'app_->threadsMutexesOut_\[([^\]]+)\]->Lock\(\)', r'Mutex_Lock(&Out[\1])', None),
             ('R-ptr Out.Unlock', r'app_->threadsMutexesOut_\[([^\]]+)\]->Unlock\(\)', r'Mutex_Unlock(&Out[\1])', None),
-            ('R-ptr Merge', r'app_->MergeWorker\(this\)', 'MergeWorker(wid)', None),
+            ('R-ptr Merge', r'app_->MergeWorker\(this\)', 'MergeWorker(verif_wid__)', None),
             ('R-ptr nthreads', r'app_->nthreads_', 'nthreads_', None)]
 
 
 def job_conc(nt, nf, sync, budget=None):
     """all interleavings of nt workers + main; nf frames after seeking; frame budget symbolic in [-1, nf+1].  C mode, bodies after counted R-ptr rewrites."""
     pd, run, info = bodies()
+    # identifiers the C harness owns in the scope the bodies are spliced into: a local of the real code with one of these names would silently
+    # change the meaning of the harness (observed with a harmless rename of a local to `wid`) - that is drift, not a violation
+    reserved = ('verif_wid__', 'In', 'Out', 'Mutex_Lock', 'Mutex_Unlock', 'NextFrame', 'Apply', 'Eval', 'MergeWorker', 'ProcessData', 'Worker_Run', 'worker_frame', 'next_frame', 'merged', 'evaluated')
+    for ex in (pd, run):
+        clean = ccv.strip_map(ex.body)
+        for m in re.finditer(r'[A-Za-z_][A-Za-z_0-9]*', clean):
+            if m.group(0) in reserved:
+                k = m.start() - 1
+                while k >= 0 and clean[k] in ' \t\n':
+                    k -= 1
+                if not (k >= 0 and (clean[k] == '.' or clean[k - 1:k + 1] in ('->', '::'))):
+                    raise core.Undecided('extraction drift: the body of %s uses the identifier %s, which the harness reserves' % (ex.sig, m.group(0)))
     for name, pat, rep, cnt in RPTR_PD:
         ccv.rule(pd, name, pat, rep, cnt)
     for name, pat, rep, cnt in RPTR_RUN:
